@@ -74,7 +74,7 @@ theorem integrate_noop (step : StepFn K) (env : Nat → Flags) (h0 : (env 0).Cle
     · simp [h1, hx]; exact not_lt.mp hx
   have hce : checkExit { s0 with dtLastDone := 0, status := -1 } s0.t false s0.dt (env 0) =
       .ret { s0 with dtLastDone := 0, status := 0 } s0.dt := by
-    rw [checkExit_run _ s0.t s0.dt (env 0) (Or.inl rfl) h0.2.2.2.2.2.1 h0.2.2.2.2.2.2]
+    rw [checkExit_run _ s0.t s0.dt (env 0) (Or.inl rfl) h0.1.2.2.2.2.2.1 h0.1.2.2.2.2.2.2]
     have h1 : s0.t * copysign 1 s0.dt ≤ (s0.t + s0.dt) * copysign 1 s0.dt := by
       have := hc s0.dt; nlinarith
     by_cases hex : s0.exactFinish = 1
